@@ -236,6 +236,10 @@ func (boltIt *boltIterator) Seek(id []byte) error {
 func (boltIt *boltIterator) SeekReverse(id []byte) error {
 	boltIt.forward = false
 	k, v := boltIt.c.Seek(id)
+	if k == nil {
+		//every key is below id: the greatest key is the answer
+		k, v = boltIt.c.Last()
+	}
 	if k == nil || v == nil {
 		boltIt.key = nil
 		boltIt.value = nil
@@ -245,6 +249,11 @@ func (boltIt *boltIterator) SeekReverse(id []byte) error {
 	//key is less then id
 	if bytes.Compare(id, k) < 0 {
 		k, v = boltIt.c.Prev()
+		if k == nil || v == nil {
+			boltIt.key = nil
+			boltIt.value = nil
+			return fmt.Errorf("Seek error")
+		}
 	}
 	boltIt.key = copyBytes(k)
 	boltIt.value = copyBytes(v)
